@@ -347,6 +347,13 @@ impl<'a, 'de: 'a, R: Read, E: Encoding> de::Deserializer<'de>
         }
     }
 
+    fn deserialize_i128<V>(self, visitor: V) -> Result<V::Value, Self::Error>
+    where
+        V: Visitor<'de>,
+    {
+        self.deserialize_i64(visitor)
+    }
+
     fn deserialize_u8<V>(self, visitor: V) -> Result<V::Value, Self::Error>
     where
         V: Visitor<'de>,
@@ -376,6 +383,13 @@ impl<'a, 'de: 'a, R: Read, E: Encoding> de::Deserializer<'de>
             Some(x) => visitor.visit_u64(x),
             None => self.deserialize_any(visitor),
         }
+    }
+
+    fn deserialize_u128<V>(self, visitor: V) -> Result<V::Value, Self::Error>
+    where
+        V: Visitor<'de>,
+    {
+        self.deserialize_u64(visitor)
     }
 
     fn deserialize_f32<V>(self, visitor: V) -> Result<V::Value, Self::Error>
